@@ -7,7 +7,7 @@ RULE = ("(molecule, acyclic single bond between heavy atoms) pairs from corpus c
         "generated family (esters, amides, ethers, thioethers, phosphonates, boronic acids, N-N / N-O / S-halogen / O-halogen bonds): "
         "the two fragments are built by deleting the other side's atoms (index map under the generator's control, radicals closed with "
         "the repository's own add_hydrogens_to_radicals) and handed to merge() as two compounds with one boundary each [mode A], and "
-        "each fragment alone with its boundary [mode B: completion by an expansion rule].  Oracle (RDKit): mode A reconstructs the "
+        "each fragment alone with its boundary [mode B: completion by an expansion rule], and the two fragments together with spectator compounds (water, benzene) in every position of the set [mode C].  Oracle (RDKit): mode A reconstructs the "
         "original (canonical SMILES ignoring stereo) unless a restriction rule (no bond) is reported; in every mode the product is a valid "
         "molecule, carbons are conserved, heavy atoms = fragments + compounds named by the reported expansion rules.  Correspondence: "
         "the merged molecule's atom list and bond multiset vs Model/Merge.merge_two_mols, and the reported merge / expansion rule vs "
@@ -44,7 +44,9 @@ Definition ecase (tbl : list (string * bool)) (e : option string) : bool :=
 """
 FAMILY = ["CCOC(C)=O", "CC(=O)NC", "CCOCC", "CSC", "CC(=O)SC", "CP(=O)(OC)OC", "COP(=O)(O)O", "OB(O)c1ccccc1", "CNN", "CON", "CSCl", "COCl", "CN(C)Cl",
           "CC(=O)OC(C)=O", "c1ccccc1OC", "CC(O)CO", "NCC(=O)O", "CS(=O)(=O)Cl", "C[Si](C)(C)Cl", "C[Mg]Br", "CC(C)=NO", "CCN=C=O", "OCCN", "CC#CC", "C=CC",
-          "CCBr", "CC(=O)Cl", "c1ccccc1C(=O)OC", "COC(=O)OC", "CNC(=O)OC", "CC(=O)N(C)C", "CSSC", "COO", "CN=NC"]
+          "CCBr", "CC(=O)Cl", "c1ccccc1C(=O)OC", "COC(=O)OC", "CNC(=O)OC", "CC(=O)N(C)C", "CSSC", "COO", "CN=NC",
+          # hydrogens that stay in the molecular graph (isotope labels): atom count != heavy-atom count
+          "[2H]c1ccc(C(=O)OCC)cc1", "[2H]C([2H])([2H])OC(C)=O", "[2H]OCC", "CC([2H])([2H])OC", "[3H]CC(=O)NC", "[2H]N(C)C(C)=O"]
 
 
 def nostereo(smi):
@@ -191,6 +193,40 @@ def run(ctx):
                                 bt, _ = parse_bond_type(r.bond)
                                 mexprs.append("mcase %s %s %s %s %s %s" % (c["g1"], c["g2"], cnat(c["i1"]), cnat(c["i2"]), copt(None if bt is None else int(bt), cnat), c["res"]))
                                 mmeta.append(case)
+                # ---- mode C: the same two fragments with spectator compounds (water = removed by a compound rule, benzene = kept
+                # and concatenated) in every position of the compound set
+                if rng.random() < (0.5 if ctx.quick() else 0.3):
+                    layouts = [["w", 1, 2], [1, "w", 2], [1, 2, "w"], ["w", "b", 1, 2], [1, "b", "w", 2], ["b", 1, 2]]
+                    lay = rng.choice(layouts)
+                    case = {"smiles": smi, "bond": [u, v], "mode": "two-fragments+spectators", "layout": lay}
+                    calls.clear()
+                    ctx.evaluations += 1
+                    try:
+                        cs = CompoundSet()
+                        for x in lay:
+                            if x == "w":
+                                cs.add_compound("O", src_mol="O")
+                            elif x == "b":
+                                cs.add_compound("c1ccccc1", src_mol="c1ccccc1")
+                            elif x == 1:
+                                c1 = cs.add_compound(Chem.Mol(fa), src_mol=m); c1.add_boundary(ia, neighbor_index=v)
+                            else:
+                                c2 = cs.add_compound(Chem.Mol(fb), src_mol=m); c2.add_boundary(ib, neighbor_index=u)
+                        res = mg.merge(cs)
+                        names = [r.name for r in res.rules]
+                        ctx.nontrivial.add((smi, u, v, "C", json.dumps(lay)))
+                        ctx.count("spectators", "|".join(str(x) for x in lay))
+                        want = collections.Counter(heavy(m))
+                        if "b" in lay:
+                            want.update({"C": 6})
+                        if dict(want) != heavy(res.mol):
+                            ctx.fail("atoms-not-conserved", case, {"rules": names, "expected": dict(want), "got": heavy(res.mol)})
+                        elif not any(n in restriction for n in names):
+                            exp = nostereo(smi + (".c1ccccc1" if "b" in lay else ""))
+                            if nostereo(res.mol) != exp:
+                                ctx.fail("original-not-reconstructed", case, {"rules": names, "expected": exp, "got": nostereo(res.mol)})
+                    except Exception as e:
+                        ctx.fail("merge-raised", case, {"error": "%s: %s" % (type(e).__name__, str(e)[:160])})
                 # ---- mode B: one open fragment, completed by expansion
                 for (f1, i1, n1) in ((fa, ia, v), (fb, ib, u)):
                     case = {"smiles": smi, "bond": [u, v], "mode": "single-fragment", "fragment": Chem.MolToSmiles(f1)}
